@@ -1,0 +1,9 @@
+//go:build verif
+
+// Contracts for package ers, read by /verif/govc (comments only).
+package ers
+
+//@ func NewInvariantViolation
+//@   props C14 C19 C12
+//@   trusted builds an error value from its arguments; only non-nilness is used
+//@   ensures result != nil
